@@ -145,6 +145,7 @@ func (fc *FnCtx) inlineCall(ci calleeInfo, in ssa.Instruction, st *State, resT t
 		counts: fc.counts, params: map[string]Val{}, unknownCallees: fc.unknownCallees, depth: fc.depth + 1, inline: true,
 		old: fc.old, na0: fc.na0, nowrap: fc.nowrap, frameParent: fc}
 	sub.findLoops()
+	sub.noteTypes(ci.fn)
 	for i, p := range ci.fn.Params {
 		sub.vals[p] = ci.args[i]
 		sub.params[p.Name()] = ci.args[i]
